@@ -105,7 +105,7 @@ impl Case {
     }
 }
 
-const REAL_FAULTS: [&str; 9] = ["missing-directory", "path-is-directory", "parent-is-file", "name-too-long", "dev-full", "path-dot", "path-dotdot", "path-trailing-dotdot", "path-empty"];
+const REAL_FAULTS: [&str; 10] = ["missing-directory", "path-is-directory", "parent-is-file", "name-too-long", "dev-full", "path-dot", "path-dotdot", "path-trailing-dotdot", "path-empty", "blank-before-absolute-path"];
 /// total SVG lengths produced on purpose (index = case.k)
 const EXACT_LENGTHS: [usize; 12] = [4096, 8191, 8192, 8193, 16384, 32768, 65535, 65536, 65537, 131072, 196608, 262144];
 /// destination states that are not faults: a longer file, a shorter file, a symbolic link to a longer file
@@ -148,6 +148,11 @@ pub fn jobs(ctx: &Ctx) -> Vec<Case> {
                     }
                     push("exact-length-short-writes", 0, 4, 4096);
                     push("exact-length-short-writes", 0, 7, 65536);
+                }
+                // file names that begin or end with white space are legal, distinct names: the bytes must land in
+                // exactly the file that was named (k: trailing blank, leading blank, trailing newline, trailing TAB)
+                for kk in 0..4 {
+                    push("name-with-blanks", 0, kk, 0);
                 }
                 // an embedded image given as a RELATIVE path while the output goes to another directory: a real image of
                 // that name lies in the working directory (k=0), next to the output file (k=1), or a different one in
@@ -246,6 +251,14 @@ pub fn observe(ctx: &Ctx, st: &mut Stats, c: &Case, idx: usize) {
             let _ = std::os::unix::fs::symlink(&real, &p);
             p
         }
+        "name-with-blanks" => dir.join(match c.k {
+            0 => format!("out.{ext} "),
+            1 => format!(" out.{ext}"),
+            2 => format!("out.{ext}\n"),
+            _ => format!("out.{ext}\t"),
+        }),
+        // a blank in front of an absolute path makes it a relative path into a directory called " " that does not exist
+        "blank-before-absolute-path" => PathBuf::from(format!(" {}", dir.join(format!("out.{ext}")).display())),
         "relative-image" => {
             // two different real PNG files (rendered by the crate itself from two small symbols)
             let logo = |seed: u8, colour: [u8; 3]| -> Option<Vec<u8>> {
@@ -494,7 +507,7 @@ pub fn run(ctx: &Ctx) -> Report {
     st.sets.remove("unreached");
     let mut rep = Report::new(
         st,
-        "cases = {SVG, PNG} x versions {1,7,40} (thorough: all 40) x option sets x fault classes: none; destination already exists (6 MiB longer file, 5-byte shorter file, symbolic link to a longer file, longer file + short writes): Ok must leave exactly the rendering, no stale tail; SVG documents padded (through the image string) to exactly 4096, 8191, 8192, 8193, 16384, 32768, 65535, 65536, 65537, 131072, 196608, 262144 bytes, also under short writes; an embedded image given as a relative path with a real image of that name in the working directory, next to the output file (another directory), or different ones in both; the same process has just written another rendering to the same or to another path (identical / same symbol with one size-deciding option changed / bigger symbol / other colour); real faults: missing directory (ENOENT), path is a directory (EISDIR), parent is a regular file (ENOTDIR), over-long name (ENAMETOOLONG), paths without a file-name component (dir/., dir/sub/.., dir/x/.., the empty path), /dev/full (ENOSPC at write time); injected by an LD_PRELOAD shim scoped to the case's scratch directory: create fails with EACCES/EROFS/EMFILE, first write fails with ENOSPC/EIO/EDQUOT, k-th write of a chunked stream fails (k in 2,3,5,9; 1024-byte chunks; 7-byte chunks), every write short (7 / 4096 bytes), EINTR on every other write (with and without short writes); each case runs to_file in a child process; the shim logs every interception and every fault actually DELIVERED; oracle: Ok(()) => the file's bytes equal the in-memory rendering computed in the same child; a delivered hard fault => Err(_) converted through ConvertError::from, normal exit, no panic; only benign perturbations => Ok with full content; a configured fault that was never reached is counted separately and is not a pass for the error half; distinct key = case; every case non-trivial",
+        "cases = {SVG, PNG} x versions {1,7,40} (thorough: all 40) x option sets x fault classes: none; destination already exists (6 MiB longer file, 5-byte shorter file, symbolic link to a longer file, longer file + short writes): Ok must leave exactly the rendering, no stale tail; SVG documents padded (through the image string) to exactly 4096, 8191, 8192, 8193, 16384, 32768, 65535, 65536, 65537, 131072, 196608, 262144 bytes, also under short writes; file names that begin or end with white space (the named file, not a trimmed one, must hold the bytes); an embedded image given as a relative path with a real image of that name in the working directory, next to the output file (another directory), or different ones in both; the same process has just written another rendering to the same or to another path (identical / same symbol with one size-deciding option changed / bigger symbol / other colour); real faults: missing directory (ENOENT), path is a directory (EISDIR), parent is a regular file (ENOTDIR), over-long name (ENAMETOOLONG), paths without a file-name component (dir/., dir/sub/.., dir/x/.., the empty path), an absolute path with a blank in front (a relative path into a missing directory), /dev/full (ENOSPC at write time); injected by an LD_PRELOAD shim scoped to the case's scratch directory: create fails with EACCES/EROFS/EMFILE, first write fails with ENOSPC/EIO/EDQUOT, k-th write of a chunked stream fails (k in 2,3,5,9; 1024-byte chunks; 7-byte chunks), every write short (7 / 4096 bytes), EINTR on every other write (with and without short writes); each case runs to_file in a child process; the shim logs every interception and every fault actually DELIVERED; oracle: Ok(()) => the file's bytes equal the in-memory rendering computed in the same child; a delivered hard fault => Err(_) converted through ConvertError::from, normal exit, no panic; only benign perturbations => Ok with full content; a configured fault that was never reached is counted separately and is not a pass for the error half; distinct key = case; every case non-trivial",
     );
     rep.level = "fault_enumeration";
     rep.expected_sets = vec![("fault_classes", 21), ("fault_class_x_format", 40)];
